@@ -34,7 +34,7 @@ KMID_MAX = 1e12
 
 def floors(tier):
     return {"updates_judged": 3000, "accepted": 1500, "rejected": 200, "evictions": 300, "dense_compared": 1500,
-            "used_matrices_checked": 300, "restarted_runs": 20, "filter_calls_judged": 1000, "filter_calls_dropping_points": 300, "__nontrivial__": 30}
+            "used_matrices_checked": 300, "restarted_runs": 20, "restarted_runs_with_smaller_memory": 10, "restored_histories_checked": 20, "runs_with_objective_redefined": 60, "filter_calls_judged": 1000, "filter_calls_dropping_points": 300, "__nontrivial__": 30}
 
 
 # ---------------------------------------------------------------------------
@@ -58,10 +58,18 @@ def fields_equal(a, b):
     return None
 
 
-def compare_dense(out, mats, X, G, n, where, tags):
+def compare_dense(out, mats, X, G, n, where, tags, eps=None):
     """dense(compact) vs dense BFGS of the pairs in the deques; SPD; secant."""
     S = [X[i + 1] - X[i] for i in range(len(X) - 1)]
     Y = [G[i + 1] - G[i] for i in range(len(G) - 1)]
+    if eps is not None:
+        for j, (sv, yv) in enumerate(zip(S, Y)):
+            sy, yy = float(sv @ yv), float(yv @ yv)
+            if abs(sy - eps * yy) <= 1e-10 * float(np.linalg.norm(sv) * np.linalg.norm(yv)):
+                continue  # within rounding of the threshold
+            if not (sy > eps * yy):
+                out.violate("stored_pair_fails_curvature_condition", f"{where}: stored pair {j} has s.y={sy!r} <= eps*y.y={eps * yy!r} (eps={eps:g})", **tags)
+                return
     if not S:
         Bc = dense_from_compact(mats, n)
         if not (mats.theta > 0 and np.array_equal(Bc, mats.theta * np.eye(n))):
@@ -228,7 +236,16 @@ def cases(tier, seed):
     for i in range(nr):
         ps = gen.rand_spec(rng, RUN_FAMILIES, nmax=10)
         yield {"kind": "run", "problem": ps, "maxcor": int(rng.integers(1, 8)), "maxls": int(gen.pick(rng, [2, 3, 5, 20])),
-               "maxiter": int(rng.integers(8, 40)), "restart_after": int(rng.integers(2, 7)) if i % 3 == 0 else 0}
+               "maxiter": int(rng.integers(8, 40)), "restart_after": int(rng.integers(2, 9)) if i % 3 == 0 else 0,
+               "restart_maxcor_drop": int(rng.integers(0, 4)),
+               "eps_SY": float(gen.pick(rng, [2.2e-16, 2.2e-16, 1e-3, 1e-2, 0.1]))}
+    for i in range(nr // 2):
+        ps = gen.rand_spec(rng, ("qp", "qp_quartic"), nmax=8, nmin=2, boxes=("mixed", "boxed", "lower", "none"), starts=("interior", "face", "vertex"), condmax=1e3)
+        yield {"kind": "run", "problem": ps, "maxcor": int(rng.integers(1, 7)), "maxiter": int(rng.integers(6, 16)), "maxls": 20,
+               "switch": {"switch_at": int(rng.integers(1, 7)), "variant": gen.pick(rng, ["reg", "indefinite", "indefinite"]),
+                          "vseed": int(rng.integers(0, 2**31 - 1)), "strength": float(rng.uniform(0.3, 3.0)),
+                          "eps_SY": float(gen.pick(rng, [2.2e-16, 1e-2, 0.05, 0.1])),
+                          "rewrite": gen.pick(rng, ["new_deque", "same_deque", "same_arrays"])}}
 
 
 def factorised_matrix_cond(pre_X, pre_G, xk, gk, maxcor, eps):
@@ -319,20 +336,48 @@ def run_real(spec, out):
                 return
             mats = ev["live"]["mats"]
             Xl, Gl = list(fr["X"]), list(fr["G"])
+            exp = state.pop("expect_history", None)
+            if exp is not None:
+                # first Cauchy search of a restarted run: the history in use must be the checkpoint's most recent pairs, ending at its x
+                keep = min(exp["maxcor"], exp["sk"].shape[0])
+                want = exp["sk"][exp["sk"].shape[0] - keep:]
+                got = np.array([Xl[i + 1] - Xl[i] for i in range(len(Xl) - 1)]).reshape(len(Xl) - 1, P.n)
+                out.count("restored_histories_checked")
+                tol = 64 * EPS * exp["scale"]
+                if got.shape != want.shape or not np.array_equal(Xl[-1], exp["x"]) or (want.size and not np.max(np.abs(got - want)) <= tol):
+                    out.violate("restored_history_not_most_recent_pairs", f"restart with maxcor={exp['maxcor']} from a checkpoint holding {exp['sk'].shape[0]} pairs: the history "
+                                f"in use at the first iteration has {got.shape[0]} pairs which are not the checkpoint's most recent ones (max dev "
+                                f"{(float(np.max(np.abs(got - want))) if got.shape == want.shape and want.size else float('nan')):.3e}, tolerance {tol:.1e})", source="restart")
+                    return
             out.count("used_matrices_checked")
             compare_dense(out, mats, Xl, Gl, P.n, f"matrix handed to get_cauchy_point (call #{ic.calls['get_cauchy_point']})",
-                          dict(source="used"))
+                          dict(source="used"), eps=float(spec.get("eps_SY", 2.2e-16)))
 
-    cfg = dict(jac="callable", maxcor=spec["maxcor"], maxls=spec["maxls"], maxiter=spec["maxiter"], ftol=0.0, gtol=1e-9, maxfun=2000)
+    cfg = dict(jac="callable", maxcor=spec["maxcor"], maxls=spec["maxls"], maxiter=spec["maxiter"], ftol=0.0, gtol=1e-9, maxfun=2000,
+               eps_SY=spec.get("eps_SY", 2.2e-16))
     with probes.Intercept(M, ["update_lbfgs_matrices", "get_cauchy_point"], frame_vars=("X", "G"), on_event=None) as ic:
         # on_event needs ic in scope: attach after construction
         ic.on_event = on_event
-        if spec.get("restart_after"):
+        if spec.get("switch"):
+            # the objective is redefined on the fly: the stored gradients are rewritten (new deque, same deque, or same arrays) and filtered
+            from . import C13
+
+            out.count("runs_with_objective_redefined")
+            tr = C13.switch_trace(dict(spec, **spec["switch"]))
+        elif spec.get("restart_after"):
             # the same monitors keep watching while the run is continued from a checkpoint (restored history)
             first = probes.run_min(P, dict(cfg, maxiter=spec["restart_after"]))
             if first.exc is None and first.result.nit == spec["restart_after"]:
                 out.count("restarted_runs")
-                tr = probes.run_min(P, cfg, checkpoint=first.result, x0=np.array(first.result.x, dtype=float, copy=True))
+                ck = first.result
+                m_ck = ck.hess_inv.sk.shape[0]
+                cfg2 = dict(cfg)
+                if spec.get("restart_maxcor_drop") and m_ck >= 2:
+                    cfg2["maxcor"] = max(1, m_ck - int(spec["restart_maxcor_drop"]))  # a smaller memory than the checkpoint holds
+                    out.count("restarted_runs_with_smaller_memory")
+                state["expect_history"] = dict(sk=np.array(ck.hess_inv.sk, copy=True), x=np.array(ck.x, copy=True), maxcor=cfg2["maxcor"],
+                                               scale=float(np.max(np.abs(ck.x)) + np.max(np.abs(np.cumsum(ck.hess_inv.sk[::-1], axis=0))) if m_ck else 1.0))
+                tr = probes.run_min(P, cfg2, checkpoint=ck, x0=np.array(ck.x, dtype=float, copy=True))
             else:
                 tr = first
         else:
